@@ -116,6 +116,13 @@ class MAP(T):
         keys = SEQ(self.key).fresh(name + ".keys") if self.ordered else None
         return MapV(ks, vs, dom, vals if len(vals) > 1 else vals[0], keys)
 
+    def shape(self):
+        from .values import MapShape
+
+        if self.ordered:
+            raise Unsupported("an insertion-ordered dict as a field / element (declare it ordered=False)")
+        return MapShape(self.key.shape(), self.val.shape())
+
 
 class CONST(T):
     """A parameter that is fixed to a Python constant (e.g. a mode flag) for the
